@@ -1,0 +1,5 @@
+//go:build !verif
+
+package eventlogger
+
+func verifPoint(string, ...interface{}) {}
